@@ -453,6 +453,7 @@ type Contract struct {
 	Options   map[string]string
 	Uses      []string // lemmas made available (entry and loop heads)
 	Recvs     map[int][]*Clause // assumptions about the n-th channel receive
+	GhostDefs []*Clause         // post-conditions that define ghost state: assumed at call sites, not checked on the body (listed)
 }
 
 type Pred struct {
@@ -600,7 +601,7 @@ func clauseWord(l string) string {
 
 func isClauseStart(w string) bool {
 	switch w {
-	case "requires", "ensures", "modifies", "pure", "loop", "assume", "trusted", "noinline", "serves", "option", "induction", "uses", "trigger", "recv":
+	case "requires", "ensures", "modifies", "pure", "loop", "assume", "trusted", "noinline", "serves", "option", "induction", "uses", "trigger", "recv", "ghostdef":
 		return true
 	}
 	return strings.HasPrefix(w, "ensures[") || strings.HasPrefix(w, "requires[")
@@ -828,6 +829,13 @@ func (db *SpecDB) parseDecl(d *rawDecl) error {
 			c.NoInline = true
 		case "uses":
 			c.Uses = append(c.Uses, strings.TrimSpace(body))
+		case "ghostdef":
+			cl, err := mk("ghostdef", body)
+			if err != nil {
+				return err
+			}
+			cl.Ord = len(c.GhostDefs) + 1
+			c.GhostDefs = append(c.GhostDefs, cl)
 		case "recv":
 			// recv N: assume expr because "reason"
 			k := strings.Index(body, ":")
